@@ -294,3 +294,54 @@ def _register_serialization():
 
 
 _register_serialization()
+
+
+# ---------------------------------------------------------------------------
+# base configs and fiddlers for the flags machine (C18); resolved by name
+# through FiddleFlag(default_module=<this module>)
+# ---------------------------------------------------------------------------
+def build_from_spec(spec):
+  """Literal spec -> value.  ['cfg', fn, [args], {kwargs}] | ['partial', ...] |
+  ['list', [..]] | ['tuple', [..]] | ['dict', [[k, v], ..]] | ['leaf', literal]
+  """
+  import fiddle as fdl
+  import sys
+  kind = spec[0]
+  if kind == 'leaf':
+    return spec[1]
+  if kind == 'list':
+    return [build_from_spec(s) for s in spec[1]]
+  if kind == 'tuple':
+    return tuple(build_from_spec(s) for s in spec[1])
+  if kind == 'dict':
+    return {k: build_from_spec(v) for k, v in spec[1]}
+  if kind in ('cfg', 'partial'):
+    fn = getattr(sys.modules[__name__], spec[1])
+    cls = fdl.Config if kind == 'cfg' else fdl.Partial
+    return cls(fn, *[build_from_spec(s) for s in spec[2]],
+               **{k: build_from_spec(v) for k, v in spec[3].items()})
+  raise ValueError(spec)
+
+
+def base_gen(spec, z=0):
+  cfg = build_from_spec(spec)
+  cfg.z = z
+  return cfg
+
+
+def fid_scale(cfg, k=2):
+  """Mutating fiddler that does not commute with set:z=..."""
+  cfg.z = cfg.z * k + 1
+
+
+def fid_replace(cfg, v):
+  """Fiddler that returns a replacement instead of mutating."""
+  import copy
+  new = copy.deepcopy(cfg)
+  new.z = (new.z, v)
+  return new
+
+
+def fid_push(cfg, item):
+  cur = cfg.y if isinstance(cfg.y, list) else []
+  cfg.y = list(cur) + [item]
